@@ -33,6 +33,9 @@ func (c10) Rule() string {
 
 func (c10) Generate(r *rand.Rand, tier string) (sim.Config, any) {
 	cfg := RandomSimConfig(r)
+	old := vecStyle
+	vecStyle = pickVecStyle(r)
+	defer func() { vecStyle = old }()
 	schema := models.IndexSchema{"vv": {Type: models.IndexTypeVectorVamana, VectorVamana: genVamanaParams(r, 2+r.IntN(4), r.IntN(3) == 0)}}
 	if r.IntN(3) == 0 {
 		schema["s"] = models.IndexSchemaValue{Type: models.IndexTypeString, String: &models.IndexStringParameters{}}
